@@ -426,4 +426,80 @@ theorem qpPairs_inv (mag : V3 K → K) (cosMax big : K) (ps qs : List (V3 K)) :
     ⟨rfl, by simp, by simp [held], by simp⟩
   simpa [qpPairs] using PInv.fold mag cosMax (shortest mag big ps) ps qs [] [] h0
 
+/-! ### the undeformed crystal with further shells in the current list: ingredients -/
+
+/-- a reference vector (positive length, no other reference vector parallel to it) is its own best match. -/
+theorem bestP_self (mag : V3 K → K) (cosMax : K) (pre post : List (V3 K)) (p : V3 K) (hc : cosMax < 1)
+    (hmag : ∀ x ∈ pre ++ p :: post, 0 < mag x ∧ mag x * mag x = V3.normSq x)
+    (hsep : (pre ++ p :: post).Pairwise (fun a b => V3.dot a b < mag a * mag b)) :
+    bestP mag cosMax p (pre ++ p :: post) = some pre.length := by
+  apply bestP_of_isBest
+  have hm := hmag p (by simp)
+  have hs := List.pairwise_append.mp hsep
+  refine ⟨pre, p, post, rfl, rfl, ?_, ?_, ?_⟩
+  · rw [cosTheta_self mag p hm.1 hm.2]; exact hc
+  · intro x hx
+    rw [cosTheta_self mag p hm.1 hm.2]
+    have hxm := hmag x (by simp [hx])
+    apply cosTheta_lt_one mag p x hm.1 hxm.1
+    have := hs.2.2 x hx p List.mem_cons_self
+    rw [dot_comm', mul_comm]; exact this
+  · intro x hx
+    rw [cosTheta_self mag p hm.1 hm.2]
+    have hxm := hmag x (by simp [hx])
+    apply le_of_lt
+    apply cosTheta_lt_one mag p x hm.1 hxm.1
+    exact (List.pairwise_cons.mp hs.2.1).1 x hx
+
+theorem bestFold_idx_lt (mag : V3 K → K) (q : V3 K) :
+    ∀ (ps : List (V3 K)) (st : K × Option Nat × Nat), (∀ k, st.2.1 = some k → k < st.2.2) →
+      ∀ k, (ps.foldl (bestStep mag q) st).2.1 = some k → k < st.2.2 + ps.length
+  | [], st, h => by simpa using h
+  | p :: l, st, h => by
+    intro k hk
+    simp only [List.foldl_cons] at hk
+    have hc : (bestStep mag q st p).2.2 = st.2.2 + 1 := by
+      simp only [bestStep]; split <;> rfl
+    have h' : ∀ k, (bestStep mag q st p).2.1 = some k → k < (bestStep mag q st p).2.2 := by
+      intro k' hk'
+      rw [hc]
+      simp only [bestStep] at hk'
+      split at hk'
+      · simp only [Option.some.injEq] at hk'; omega
+      · have := h k' hk'; omega
+    have := bestFold_idx_lt mag q l _ h' k hk
+    rw [hc] at this
+    simp only [List.length_cons]; omega
+
+/-- the index `match_pq` stores for a `q` addresses a reference vector. -/
+theorem bestP_lt (mag : V3 K → K) (cosMax : K) (q : V3 K) (ps : List (V3 K)) (a : Nat)
+    (h : bestP mag cosMax q ps = some a) : a < ps.length := by
+  have := bestFold_idx_lt mag q ps (cosMax, none, 0) (by simp) a h
+  simpa using this
+
+/-- `r1` is not larger than any `|p|`. -/
+theorem shortest_le (mag : V3 K → K) :
+    ∀ (ps : List (V3 K)) (r : K), ps.foldl (fun r p => if mag p < r then mag p else r) r ≤ r ∧
+      ∀ p ∈ ps, ps.foldl (fun r p => if mag p < r then mag p else r) r ≤ mag p
+  | [], r => ⟨le_refl _, by simp⟩
+  | x :: l, r => by
+    simp only [List.foldl_cons]
+    obtain ⟨h1, h2⟩ := shortest_le mag l (if mag x < r then mag x else r)
+    have hle : (if mag x < r then mag x else r) ≤ r := by split <;> [exact le_of_lt ‹_›; exact le_refl _]
+    have hlx : (if mag x < r then mag x else r) ≤ mag x := by
+      split
+      · exact le_refl _
+      · exact not_lt.mp ‹_›
+    refine ⟨le_trans h1 hle, ?_⟩
+    intro p hp
+    rcases List.mem_cons.mp hp with hp | hp
+    · rw [hp]; exact le_trans h1 hlx
+    · exact h2 p hp
+
+/-- a vector no shorter than `r1` is closer to `r1` than a strictly longer one. -/
+theorem rad_lt_of_longer (mag : V3 K → K) (r1 : K) (t q : V3 K) (h1 : r1 ≤ mag t) (h2 : mag t < mag q) :
+    rad mag r1 t < rad mag r1 q := by
+  unfold rad absK
+  split <;> split <;> linarith
+
 end Atomman.C17
